@@ -77,7 +77,11 @@ def r1_header(ctx, res):
     key = 'read-header-shape'
     res.inst(key, hv.loc(), 'compares the declaration with _XMLDECL and looks the DOCTYPE up in _DOCTYPES')
     raises = [r for r in hv.rows if r[0] == 'raise' and r[1].startswith('LMFError(')]
-    r_decl = [r for r in raises if any(g.endswith('!= _XMLDECL') for g in r[2])]
+    # the declaration is the first line as read (trailing whitespace removed, quote style normalised) - nothing is removed in
+    # front of it: is_lmf() is preceded by the file-signature test is_xml() (`<?xml ` at byte 0), so a header check that
+    # tolerates anything before the declaration (a byte-order mark) makes load() accept files is_lmf() / add() reject
+    decl_line = "fh.readline().rstrip().replace(b\"'\", b'\"')"
+    r_decl = [r for r in raises if any(g == f'{decl_line} != _XMLDECL' for g in r[2])]
     # membership may be spelled `k in _DOCTYPES` or `_DOCTYPES.get(k) is not None` (no value of the table is None)
     none_free = all(v is not None for v in doctypes.values())
     absent = lambda g: g.endswith('not in _DOCTYPES') or (none_free and g.startswith('_DOCTYPES.get(') and g.endswith(') is None'))   # noqa: E731
@@ -408,6 +412,22 @@ def r4_scan_equals_load(ctx, res):
     consts = [c.value for c in ast.walk(f.node) if isinstance(c, ast.Constant) and isinstance(c.value, (bytes, str))]
     has_comment_pat = any(('<!--' in (c if isinstance(c, str) else c.decode('latin1'))) for c in consts)
     res.inst(key, lmf.loc(f.node), 'a pattern for <!-- ... --> is applied before the tags are matched')
+    # ... and a comment may span lines: `.` must match newlines in that pattern (re.S / re.DOTALL / (?s)), or the pattern must not use `.`
+    multiline_ok = False
+    for c in ast.walk(f.module.tree if not has_comment_pat else f.node):
+        if isinstance(c, ast.Call) and norm(c.func) in ('re.compile', 're.sub', 're.finditer') and c.args \
+                and isinstance(c.args[0], ast.Constant) and isinstance(c.args[0].value, (bytes, str)):
+            pat = c.args[0].value
+            ptxt = pat if isinstance(pat, str) else pat.decode('latin1')
+            if '<!--' not in ptxt:
+                continue
+            flags = ' '.join(norm(k.value) for k in c.keywords if k.arg == 'flags') + ' ' + ' '.join(norm(a) for a in c.args[1:2] if norm(c.func) == 're.compile')
+            dotall = any(tok in flags.replace('|', ' ').split() for tok in ('re.S', 're.DOTALL', 'S', 'DOTALL')) or '(?s' in ptxt
+            uses_any = any(op is rc.ANY for op, _ in _walk_re(sp.parse(pat)))
+            multiline_ok = dotall or not uses_any
+    if has_comment_pat and not multiline_ok:
+        res.find(key, lmf.loc(f.node), 'the pattern that removes XML comments before the pre-scan does not match across lines (`.` without re.S): a '
+                                       'commented-out <Extends .../> inside a multi-line comment is still scanned, load() ignores it')
     if not has_comment_pat:
         res.find(key, lmf.loc(f.node), 'scan_lexicons matches <Lexicon>/<Extends> tags inside XML comments: a commented-out '
                                        '<!-- <Extends id=".." version=".."/> --> makes the scan report an extension base that load() does not '
